@@ -231,6 +231,8 @@ type String string
 type Int int
 
 type Gb[T any] interface{ Base(T) T }
+
+type Ordered[T any] interface{ Less(T) bool }
 `
 
 // Fixture is a materialised fixture module.
